@@ -53,6 +53,10 @@ type Exec struct {
 	NoArrMaps  bool
 	GlobalInit map[string]func(ex *Exec, st *State) Value // models of package-level data of packages whose init is not run
 	Flags      map[string]bool
+	sched      *sched
+	syncIDs    map[string]int
+	inE2       bool
+	eqMemo     map[[2]interface{}]*smt.Term
 	Decoded    Value                                       // value registered by verifrt.TOMLBytes for the decoder stubs
 	Params     map[string]int
 	Known      []KnownPred
@@ -937,7 +941,7 @@ func (ex *Exec) step(st *State, fr *Frame, instr ssa.Instruction) {
 		if !sz.IsConst() {
 			panic(unsupported("symbolic channel capacity"))
 		}
-		id := ex.newObj(st, &ChanC{Closed: smt.False, Cap: int(sz.V)})
+		id := ex.newObj(st, ex.newChanC(int(sz.V), in.Type().Underlying().(*types.Chan).Elem()))
 		fr.regs[in] = &ChanV{Obj: id}
 	case *ssa.MakeSlice:
 		l := ex.val(fr, in.Len).(*smt.Term)
@@ -1003,6 +1007,9 @@ func (ex *Exec) step(st *State, fr *Frame, instr ssa.Instruction) {
 			name = in.Call.Method.FullName()
 		}
 		ex.Spawned = append(ex.Spawned, name)
+		if ex.Flags["concurrent"] {
+			ex.registerGo(st, fr, in)
+		}
 	case *ssa.Select:
 		panic(unsupported("select in sequential mode at " + ex.Prog.Fset.Position(in.Pos()).String()))
 	default:
@@ -1319,10 +1326,28 @@ func (ex *Exec) eqV(x, y Value) *smt.Term {
 		return smt.True
 	}
 	if c, ok := x.(*ChoiceV); ok {
-		return smt.Ite(c.C, ex.eqV(c.A, y), ex.eqV(c.B, y))
+		key := [2]interface{}{c, y}
+		if r, ok := ex.eqMemo[key]; ok {
+			return r
+		}
+		r := smt.Ite(c.C, ex.eqV(c.A, y), ex.eqV(c.B, y))
+		if ex.eqMemo == nil {
+			ex.eqMemo = map[[2]interface{}]*smt.Term{}
+		}
+		ex.eqMemo[key] = r
+		return r
 	}
 	if c, ok := y.(*ChoiceV); ok {
-		return smt.Ite(c.C, ex.eqV(x, c.A), ex.eqV(x, c.B))
+		key := [2]interface{}{x, c}
+		if r, ok := ex.eqMemo[key]; ok {
+			return r
+		}
+		r := smt.Ite(c.C, ex.eqV(x, c.A), ex.eqV(x, c.B))
+		if ex.eqMemo == nil {
+			ex.eqMemo = map[[2]interface{}]*smt.Term{}
+		}
+		ex.eqMemo[key] = r
+		return r
 	}
 	switch a := x.(type) {
 	case *smt.Term:
@@ -1509,3 +1534,20 @@ func (ex *Exec) typeAssert(st *State, in *ssa.TypeAssert, x Value) Value {
 }
 
 var _ = math.Abs
+
+// newChanC: guarded-log channels in sequential mode, positional ring buffers in concurrent runs.
+func (ex *Exec) newChanC(capacity int, et types.Type) *ChanC {
+	if ex.Flags["concurrent"] && capacity <= 16 {
+		n := capacity
+		if n == 0 {
+			n = 1
+		}
+		sl := make([]Value, n)
+		z := ex.zero(et)
+		for i := range sl {
+			sl[i] = z
+		}
+		return &ChanC{Ring: true, Slots: sl, Len: bv64(0), Closed: smt.False, Cap: capacity}
+	}
+	return &ChanC{Closed: smt.False, Cap: capacity}
+}
